@@ -67,6 +67,9 @@ type c04In struct {
 	OwnSig     string      `json:"own_sig"`
 	PeerAddr   *string     `json:"peer_addr"` // address of the authenticated peer id; null: id has no secp256k1 key
 	Registered bool        `json:"registered"`
+	// the registry takes this long to answer the stake look-up (and, like the node's contract
+	// wrapper, answers "no" when the context it was given ends first)
+	RegistrySlowMs int `json:"registry_slow_ms,omitempty"`
 	Remote     []c04Frame  `json:"remote"`
 	Prims      []c04Verify `json:"prims"`
 	WriteFail  int         `json:"write_fail"` // index of the local write that fails, -1 none
@@ -95,14 +98,27 @@ type c04Obs struct {
 
 type c04Reg struct {
 	mu      sync.Mutex
+	slowMs  int
 	answer  bool
 	lookups int
 	perAddr map[common.Address]int
 }
 
-func (r *c04Reg) CheckProviderRegistered(_ context.Context, a common.Address) bool {
+func (r *c04Reg) CheckProviderRegistered(ctx context.Context, a common.Address) bool {
+	r.mu.Lock()
+	slow := r.slowMs
+	r.mu.Unlock()
+	if slow > 0 {
+		select {
+		case <-time.After(time.Duration(slow) * time.Millisecond):
+		case <-ctx.Done():
+		}
+	}
 	r.mu.Lock()
 	defer r.mu.Unlock()
+	if ctx.Err() != nil {
+		return false
+	}
 	if r.perAddr == nil {
 		r.perAddr = map[common.Address]int{}
 	}
@@ -322,8 +338,9 @@ func c04Run(t *testing.T, in *c04In, w *c04World, ed bool) (obs c04Obs) {
 	c04Shared.mu.Unlock()
 	hs, reg := sh.hs, sh.reg
 	reg.mu.Lock()
-	reg.answer, reg.lookups = in.Registered, 0
+	reg.answer, reg.lookups, reg.slowMs = in.Registered, 0, in.RegistrySlowMs
 	reg.mu.Unlock()
+	defer func() { reg.mu.Lock(); reg.slowMs = 0; reg.mu.Unlock() }()
 	var err error
 	pid := w.remoteID
 	if ed {
@@ -652,6 +669,44 @@ func c04Generate(t *testing.T, out *vout, blockCells bool) {
 							}
 						}
 					}
+				}
+			}
+		}
+	}
+	// a registry that is slow to answer the stake look-up: longer than every real-time bound the
+	// package's sources mention; whatever it finally says (or fails to say) decides
+	slows := []int{300}
+	for _, ms := range c20Timers() {
+		d := ms + 800
+		if ms == 0 {
+			d = 6000
+		}
+		if d <= 25000 {
+			slows = append(slows, d)
+		}
+	}
+	for _, d := range slows {
+		for _, level := range []string{"service", "caller"} {
+			for _, inbound := range []bool{true, false} {
+				for _, registered := range []bool{false, true} {
+					lr := localRoles[(d/100+len(level))%len(localRoles)]
+					rq := reqFrame("provider", "tok", "valid")
+					remote := []c04Frame{rq, echo(lr, "right")}
+					if !inbound {
+						remote = []c04Frame{echo(lr, "right"), rq}
+					}
+					ownRole := p2p.PeerType(lr).String()
+					in := &c04In{Tag: "slow-registry", Inbound: inbound, Level: level, LocalRole: lr, OwnAddr: hx(ownAddr),
+						OwnRole: hx([]byte(ownRole)), OwnToken: hx([]byte("token-local")), OwnSig: hx(sign(w.localKey, ownRole+"token-local")),
+						Registered: registered, RegistrySlowMs: d, Remote: remote, WriteFail: -1, Prims: []c04Verify{}}
+					s := hx(remAddr)
+					in.PeerAddr = &s
+					sg, _ := hex.DecodeString(rq.Sig)
+					in.Prims = append(in.Prims, c04Prim(sg, []byte("provider"+"tok")))
+					if blockCells && level != "caller" {
+						continue
+					}
+					out.emitAs("C04", in, c04Run(t, in, w, false))
 				}
 			}
 		}
